@@ -370,6 +370,50 @@ Theorem C12_imp_card_text : forall name body : string,
 Proof. exact imp_card_text. Qed.
 Print Assumptions C12_imp_card_text.
 
+(* cell cards from their text (cellcard.split: re_options, re_void / re_nonvoid /
+   re_likebut, get_cells, LIKE_RE), for ALL cards of these shapes:
+     name material geometry options            (void: float(material) = 0)
+     name material density geometry options
+     name LIKE n BUT options                   (no further "but" in the options)
+   name, n = digits; material / density = words without letter or star (the
+   density without opening parenthesis); geometry = any text without letter or
+   star; the options start with a letter or a star. [nos c] = c is neither. *)
+Theorem C12_void_card_text :
+  forall (T : Type) (Sc : Scalar T) (P : prims T) (name m G opts : string) (z : T),
+    all_digits name = true -> is_empty name = false ->
+    all_chars nos m = true -> all_chars nonblank m = true -> is_empty m = false ->
+    fl P m = Some z -> seqb Sc z (s0 Sc) = true ->
+    all_chars nos G = true -> starts_option opts = true ->
+    card_of_text Sc P (name ++ " " ++ m ++ " " ++ G ++ " " ++ opts) =
+    Ok (Z.of_N (parse_digits name 0%N),
+        (Explicit (" " ++ m)%string (" " ++ G ++ " ")%string, opts)).
+Proof. exact @void_card_text. Qed.
+Print Assumptions C12_void_card_text.
+
+Theorem C12_nonvoid_card_text :
+  forall (T : Type) (Sc : Scalar T) (P : prims T) (name m rho G opts : string) (z : T),
+    all_digits name = true -> is_empty name = false ->
+    all_chars nos m = true -> all_chars nonblank m = true -> is_empty m = false ->
+    fl P m = Some z -> seqb Sc z (s0 Sc) = false ->
+    all_chars nos rho = true -> all_chars (fun c => negb (is_blank c || Ascii.eqb c "(")) rho = true ->
+    is_empty rho = false ->
+    all_chars nos G = true -> starts_option opts = true ->
+    card_of_text Sc P (name ++ " " ++ m ++ " " ++ rho ++ " " ++ G ++ " " ++ opts) =
+    Ok (Z.of_N (parse_digits name 0%N),
+        (Explicit (" " ++ m ++ " " ++ rho)%string (" " ++ G ++ " ")%string, opts)).
+Proof. exact @nonvoid_card_text. Qed.
+Print Assumptions C12_nonvoid_card_text.
+
+Theorem C12_like_card_text :
+  forall (T : Type) (Sc : Scalar T) (P : prims T) (name L ds B rest : string),
+    all_digits name = true -> is_empty name = false -> lower L = "like" ->
+    all_digits ds = true -> is_empty ds = false -> lower B = "but" ->
+    split_last_but rest = None ->
+    card_of_text Sc P (name ++ " " ++ L ++ " " ++ ds ++ " " ++ B ++ rest) =
+    Ok (Z.of_N (parse_digits name 0%N), (Like (Z.of_N (parse_digits ds 0%N)), rest)).
+Proof. exact @like_card_text. Qed.
+Print Assumptions C12_like_card_text.
+
 (* once the card texts are split (cellcard.split / datacard.split / LIKE_RE,
    model C12/Cards.v, tied on the real card contents), parsing the deck text is
    parse_cells on the split cards: every theorem above applies to deck text *)
